@@ -17,12 +17,12 @@ Definition two64 : N := 18446744073709551616.
 Definition maxu64 : N := 18446744073709551615.
 
 Inductive perr := ESyntax | ERange.
-Inductive pres := POk (n : N) | PErr (e : perr).
+Inductive ures := UOk (n : N) | UErr (e : perr).
 
 (* the digit loop; [us] = an underscore was seen *)
-Fixpoint parse_loop (base : N) (base0 : bool) (s : list N) (n : N) (us : bool) : pres * bool :=
+Fixpoint parse_loop (base : N) (base0 : bool) (s : list N) (n : N) (us : bool) : ures * bool :=
   match s with
-  | [] => (POk n, us)
+  | [] => (UOk n, us)
   | c :: s' =>
       if (c =? 95) && base0 then parse_loop base base0 s' n true
       else
@@ -30,13 +30,13 @@ Fixpoint parse_loop (base : N) (base0 : bool) (s : list N) (n : N) (us : bool) :
                  else if (97 <=? lower c) && (lower c <=? 122) then Some (lower c - 97 + 10)
                  else None in
         match d with
-        | None => (PErr ESyntax, us)
+        | None => (UErr ESyntax, us)
         | Some d =>
-            if base <=? d then (PErr ESyntax, us)
-            else if (maxu64 / base + 1) <=? n then (PErr ERange, us)
+            if base <=? d then (UErr ESyntax, us)
+            else if (maxu64 / base + 1) <=? n then (UErr ERange, us)
             else let nb := n * base in
                  let n1 := (nb + d) mod two64 in
-                 if (n1 <? nb) || (maxu64 <? n1) then (PErr ERange, us)
+                 if (n1 <? nb) || (maxu64 <? n1) then (UErr ERange, us)
                  else parse_loop base base0 s' n1 us
         end
   end.
@@ -63,9 +63,9 @@ Definition underscore_ok (s : list N) : bool :=
   end.
 
 (* strconv.ParseUint(s, 0, 64) *)
-Definition parse_uint0 (s : list N) : pres :=
+Definition parse_uint0 (s : list N) : ures :=
   match s with
-  | [] => PErr ESyntax
+  | [] => UErr ESyntax
   | c0 :: r0 =>
       let '(base, body) :=
         if c0 =? 48 then
@@ -79,8 +79,8 @@ Definition parse_uint0 (s : list N) : pres :=
           end
         else (10, s) in
       match parse_loop base true body 0 false with
-      | (POk n, us) => if us && negb (underscore_ok s) then PErr ESyntax else POk n
-      | (PErr e, _) => PErr e
+      | (UOk n, us) => if us && negb (underscore_ok s) then UErr ESyntax else UOk n
+      | (UErr e, _) => UErr e
       end
   end.
 
@@ -96,8 +96,8 @@ Definition parse_or_default (s : list N) (min : Z) : env_outcome :=
   match s with
   | [] => EnvDefault
   | _ => match parse_uint0 s with
-         | PErr _ => EnvPanic
-         | POk val => let ret := to_int64 val in
+         | UErr _ => EnvPanic
+         | UOk val => let ret := to_int64 val in
                       if (ret <=? min)%Z then EnvPanic else EnvValue ret
          end
   end.
